@@ -11,6 +11,8 @@
      - for a target that resolves to nothing / to a directory named without its slash: anything but a
        200 (a 200 there can only be another path's cached body; whether the answer is 301, 404 or
        another status is not this property's business).
+     - a `sweep` record (the bytes Cache::get returned for all keys at one instant, added up by an observer that
+       held the read guard) never exceeds the size limit - also while handlers race.
    Deterministic replay; offending records are collected and printed.  Used to re-examine a log that
    StaticCache.tla (the model of this implementation) cannot explain. *)
 EXTENDS Integers, Sequences, TLC, Json, IOUtils
@@ -53,6 +55,9 @@ Next ==
          ELSE IF e.ev = "start"
          THEN /\ cur' = [cur EXCEPT ![e.thr] = [file |-> e.file, lo |-> e.lo, hi |-> e.hi, open |-> TRUE]]
               /\ UNCHANGED <<fhist, bad, kmime>>
+         ELSE IF e.ev = "sweep"     \* size = bytes retrievable at one instant (summed under the read guard): never above the limit
+         THEN /\ bad' = IF e.size <= e.limit \/ Len(bad) >= 20 THEN bad ELSE Append(bad, l)
+              /\ UNCHANGED <<fhist, cur, kmime>>
          ELSE /\ cur' = [cur EXCEPT ![e.thr].open = FALSE]
               /\ bad' = IF (cur[e.thr].open /\ Good(e, cur[e.thr])) \/ Len(bad) >= 20 THEN bad ELSE Append(bad, l)
               /\ kmime' = IF e.status = 200 /\ kmime[<<e.uri, e.host>>] = ""
